@@ -110,7 +110,7 @@ def run(ctx):
         counters["repository_" + k] = v
     cov = {"evaluations": n, "distinct_nontrivial": res1["distinct_nontrivial"] + res2["distinct_nontrivial"],
            "rule": res1["rule"] + " || repository level: " + res2["rule"],
-           "samples": [{"kind": s["kind"], "ops": [[t["op"], t["s"], t["b"], t["v"]] for t in s["steps"]][:12],
+           "samples": [{"kind": s["kind"], "ops": [" ".join(str(x) for x in (t["op"], t["s"], t["o"], t["res"], t["b"], t["v"] or "") if x != "") for t in s["steps"]][:14],
                         "last_obs": (s["steps"][-1]["obs"] or [None])[-1]} for s in verif.samples_from(lines, 3)],
            "records_checked_by_tlc": n, "records_rejected": len(bad), "violation_classes": sorted(seen),
            "counters": counters, "exhaustive": False}
